@@ -4,7 +4,7 @@ from itertools import product
 
 UTC = dt.timezone.utc
 COLUMNS = ["n", "m", "x", "s", "u", "b", "d"]
-TEXT = [None, "", "a", "A", "ab", "b", "%", "a%b", "a_b", "a'b", "a\\b", " a "]
+TEXT = [None, "", "a", "A", "ab", "b", "%", "a%b", "a_b", "a'b", "a\\b", " a ", "e\u0301", "\u00e9"]   # last two: decomposed / precomposed e-acute
 DOMAIN = {
     "n": [None, -2, 0, 1, 3],
     "m": [None, -2, 0, 1, 3],
